@@ -988,7 +988,7 @@ pub fn run_c08(ctx: &Ctx) -> i32 {
         level: "exploration",
         rule: "a case is (position, depth) met along random games, synthetic positions and king-hunt studies that satisfies (a) the side to move has a mate in one (depth 1..4, depth 4 only with few men): the answer of find_best_move on a fresh engine must be one of the mating moves; or (b) no mate in one, and the legal moves split into ones that allow the opponent a mate in one and ones that do not (depth 2..3): the answer must not be one that allows it. A tenth of the trials come from batteries (a slider aimed at the king through one piece of its own side: discovered checks and mates, with loose pieces around), a tenth from sparse material around a cornered king (3..6 men: minor pieces only, lone pawns about to promote, under-promotion mates). Sets are computed with the reference rules only; half of the positions are given with hostile move counters (halfmove clock up to 99). Distinct by (position, depth, kind); (a) is non-trivial when some legal move does not mate, (b) always",
         assumptions: vec!["the reference rules implementation is correct (perft self-test at every run)".into()],
-        required: if ctx.replay.is_some() { vec![] } else { vec!["mate_in_one_trials_depth_1", "mate_in_one_trials_depth_2", "mate_in_one_trials_depth_3", "mate_in_one_trials_depth_4", "avoidable_mate_trials_depth_2", "avoidable_mate_trials_depth_3", "positions_examined_with_hostile_move_counters", "mate_in_one_trials_minor_pieces_only", "avoidable_mate_trials_minor_pieces_only", "mate_in_one_trials_at_most_5_men", "mate_in_one_trials_one_minor_piece_each", "mate_in_one_trials_where_a_mating_move_is_a_quiet_discovered_check", "avoidable_mate_trials_where_a_threatened_mate_is_a_quiet_discovered_check", "mate_in_one_trials_where_a_mating_move_is_a_double_step_next_to_an_enemy_pawn"] },
+        required: if ctx.replay.is_some() { vec![] } else { vec!["mate_in_one_trials_depth_1", "mate_in_one_trials_depth_2", "mate_in_one_trials_depth_3", "mate_in_one_trials_depth_4", "avoidable_mate_trials_depth_2", "avoidable_mate_trials_depth_3", "positions_examined_with_hostile_move_counters", "mate_in_one_trials_minor_pieces_only", "avoidable_mate_trials_minor_pieces_only", "mate_in_one_trials_at_most_5_men", "mate_in_one_trials_one_minor_piece_each", "mate_in_one_trials_where_a_mating_move_is_a_quiet_discovered_check", "avoidable_mate_trials_where_a_threatened_mate_is_a_quiet_discovered_check", "mate_in_one_trials_where_a_mating_move_is_a_double_step_next_to_an_enemy_pawn", "mating_move_is_en_passant"] },
         exhaustive: false,
         extra: vec![],
     };
@@ -1054,6 +1054,15 @@ pub fn run_c08(ctx: &Ctx) -> i32 {
                         if c08_position(p, &mut rng, &mut st, None, 10) {
                             trials += 1;
                             st.bump("src_battery_trials");
+                        }
+                    }
+                }
+                7 if rng.chance(1, 4) => {
+                    // the mate in one is an en-passant capture
+                    if let Some(p) = gen::g_ep_mate(&mut rng) {
+                        if c08_position(&p, &mut rng, &mut st, None, 10) {
+                            trials += 1;
+                            st.bump("src_en_passant_mate_trials");
                         }
                     }
                 }
